@@ -125,5 +125,7 @@ def run(ctx, rep):
     # fix removes, at exit, only files it created in this run: the flag behind that decision is sound
     from .C07 import rule_created_reset
     rule_created_reset(P, rep, 'R-C12-7')
+    from .C07 import rule_finished_only_processed
+    rule_finished_only_processed(P, rep, 'R-C12-8')
     rep.extra['effects_per_command'] = summary
     rep.extra['write_sites'] = len(sites)
